@@ -1,7 +1,798 @@
-//! (stub - filled in by the corresponding check)
+//! spec -> impl replay of the exact-lattice geometry cases (spec/geom/GenL.tla, GenE.tla):
+//! properties C08 (intersection / IoU / too_far), C15 (exclusively owned share), C19 (representations,
+//! equality, angle normalisation).
+//!
+//! Every expected value is an integer computed by TLC from spec/geom/Lattice.tla / BoxEq.tla; this file only
+//! builds the real boxes, calls the real functions and compares within the stated tolerances:
+//!   * IoU: absolute 1e-4; areas: relative 1e-5; both widened by the (computed) effect of rounding the INPUT
+//!     to f32 - `dev` below is the distance between the ideal box and the box the f32 fields really denote,
+//!     an intersection area moves by at most dev x perimeter;
+//!   * an exact zero intersection may be reported as absent or as IoU < 1e-6;
+//!   * a panic of the code under test is a reported result (`<fn>:panic`).
+//! C08: every pair is replayed on the lattice (angle None / Some) and under common rigid motions (rotation about
+//! the origin by an arbitrary angle, translation up to 1e4, common power-of-two scale) chosen deterministically
+//! from the case content and `--seed`: areas scale by s^2, IoU and too_far are invariant, so TLC's value stays
+//! the oracle.
 use crate::common::*;
+use serde_json::{json, Value};
+use similari::track::ObservationAttributes;
+use similari::trackers::visual_sort::observation_attributes::VisualObservationAttributes;
+use similari::utils::bbox::{normalize_angle, BoundingBox, Universal2DBox};
+use similari::utils::clipping::bbox_own_areas::{exclusively_owned_areas, exclusively_owned_areas_normalized_shares};
+use similari::utils::clipping::sutherland_hodgman_clip;
+use std::f64::consts::PI;
+use std::panic::{catch_unwind, AssertUnwindSafe};
 
-pub fn main(_opts: &Opts) {
-    eprintln!("vh: engine not built yet");
-    std::process::exit(2);
+const IOU_TOL: f64 = 1e-4;
+const REL_TOL: f64 = 1e-5;
+const ZERO_IOU: f64 = 1e-6;
+const LIB_EPS: f64 = 1e-5;
+
+// ------------------------------------------------------------------------------------------------ lattice boxes
+#[derive(Clone, Copy, Debug)]
+struct LBox {
+    x: i64,
+    y: i64,
+    w: i64,
+    h: i64,
+    k: i64,
+}
+
+fn lbox(v: &Value) -> LBox {
+    LBox { x: jint(v, "x"), y: jint(v, "y"), w: jint(v, "w"), h: jint(v, "h"), k: jint(v, "k") }
+}
+
+impl LBox {
+    fn key(&self) -> String {
+        format!("{},{},{},{},{}", self.x, self.y, self.w, self.h, self.k)
+    }
+}
+
+/// common similarity motion: p -> s R(theta) p + t
+#[derive(Clone, Copy, Debug)]
+struct Motion {
+    s: f64,
+    theta: f64,
+    tx: f64,
+    ty: f64,
+}
+
+const IDENTITY: Motion = Motion { s: 1.0, theta: 0.0, tx: 0.0, ty: 0.0 };
+
+impl Motion {
+    fn apply(&self, px: f64, py: f64) -> (f64, f64) {
+        let (c, s) = (self.theta.cos(), self.theta.sin());
+        (self.s * (c * px - s * py) + self.tx, self.s * (s * px + c * py) + self.ty)
+    }
+    fn json(&self) -> Value {
+        json!({"scale": self.s, "theta": self.theta, "tx": self.tx, "ty": self.ty})
+    }
+}
+
+fn fnv(s: &str, seed: u64) -> u64 {
+    let mut h: u64 = 0xcbf29ce484222325 ^ seed.wrapping_mul(0x9E3779B97F4A7C15);
+    for b in s.bytes() {
+        h ^= b as u64;
+        h = h.wrapping_mul(0x100000001b3);
+    }
+    h ^ (h >> 29)
+}
+
+const THETAS: [f64; 10] = [0.3, 1.234, -2.5, 0.785_398_163_397_448_3, 3.0, 5.1, -0.01, 7.0, 0.0, 1.570_796_326_794_896_6];
+
+/// motion number `n` for a case with hash `h`: 0 = near (translation <= 10), 1 = far (translation up to 1e4, scale)
+fn motion(h: u64, n: u64) -> Motion {
+    let h = fnv("m", h.wrapping_add(n));
+    let theta = THETAS[(h % 10) as usize];
+    let u1 = ((h >> 8) % 2001) as f64 / 1000.0 - 1.0; // [-1, 1]
+    let u2 = ((h >> 24) % 2001) as f64 / 1000.0 - 1.0;
+    if n == 0 {
+        // multiples of 1/2 up to 10: exactly representable, keeps degenerate configurations exact when theta = 0
+        Motion { s: 1.0, theta, tx: (u1 * 20.0).round() / 2.0, ty: (u2 * 20.0).round() / 2.0 }
+    } else {
+        let mag = [100.0, 1000.0, 10000.0][((h >> 40) % 3) as usize];
+        let s = [1.0, 1.0, 0.25, 16.0, 128.0][((h >> 44) % 5) as usize];
+        Motion { s, theta, tx: u1 * mag, ty: u2 * mag }
+    }
+}
+
+/// a real box together with the distance `dev` between the ideal (exact) rectangle and the rectangle its f32
+/// fields denote (Hausdorff-type bound: centre shift + angle error x radius + half-size errors)
+struct Built {
+    b: Universal2DBox,
+    dev: f64,
+    perim: f64,
+    area: f64,
+    radius: f64,
+}
+
+fn build(l: &LBox, m: &Motion, none_for_k0: bool) -> Built {
+    let (cx, cy) = m.apply(l.x as f64 / 2.0, l.y as f64 / 2.0);
+    let w = m.s * l.w as f64 / 2.0;
+    let h = m.s * l.h as f64 / 2.0;
+    let ang = l.k as f64 * PI / 2.0 + m.theta;
+    let angle = if none_for_k0 && l.k == 0 && m.theta == 0.0 { None } else { Some(ang as f32) };
+    let aspect = (l.w as f64 / l.h as f64) as f32;
+    let b = Universal2DBox::new(cx as f32, cy as f32, angle, aspect, h as f32);
+    let radius = (w * w + h * h).sqrt() / 2.0;
+    let aw = b.aspect as f64 * b.height as f64;
+    let dev = ((b.xc as f64 - cx).powi(2) + (b.yc as f64 - cy).powi(2)).sqrt()
+        + (b.angle.map(|a| a as f64).unwrap_or(0.0) - if angle.is_some() { ang } else { 0.0 }).abs() * radius
+        + (aw - w).abs() / 2.0
+        + (b.height as f64 - h).abs() / 2.0
+        + ulp32(b.xc.abs().max(b.yc.abs())) / 16.0;
+    Built { b, dev, perim: 2.0 * (w + h), area: w * h, radius }
+}
+
+/// spacing of f32 at magnitude x: positions of boxes are not meaningful below it, so a sixteenth of it is
+/// always granted as deviation (this is what scales the tolerances with the magnitude of the coordinates)
+fn ulp32(x: f32) -> f64 {
+    let x = x.abs().max(f32::MIN_POSITIVE);
+    (f32::from_bits(x.to_bits() + 1) - x) as f64
+}
+
+fn ring(p: &[(f64, f64)]) -> f64 {
+    let n = p.len();
+    let mut s = 0.0;
+    for i in 0..n {
+        let j = (i + 1) % n;
+        s += p[i].0 * p[j].1 - p[j].0 * p[i].1;
+    }
+    s.abs() / 2.0
+}
+
+// ------------------------------------------------------------------------------------------------ C08: pairs
+struct Exp {
+    i: f64,   // exact intersection area (scaled)
+    tol: f64, // admissible deviation of an area
+    s_area: f64,
+    min_area: f64,
+}
+
+impl Exp {
+    fn iou_bounds(&self) -> (f64, f64) {
+        let f = |i: f64| i / (self.s_area - i);
+        (f((self.i - self.tol).max(0.0)), f((self.i + self.tol).min(self.min_area)))
+    }
+}
+
+fn check_area(name: &str, got: f64, e: &Exp) -> Option<(String, Value)> {
+    if got.is_nan() {
+        return Some((format!("pair:{}:nan", name), json!({"spec": e.i, "impl": "NaN"})));
+    }
+    if (got - e.i).abs() > e.tol {
+        return Some((format!("pair:{}:value", name), json!({"spec": e.i, "impl": got, "tol": e.tol})));
+    }
+    None
+}
+
+fn check_iou(name: &str, got: Option<f32>, e: &Exp, absent_allowed: bool) -> Option<(String, Value)> {
+    let (lo, hi) = e.iou_bounds();
+    let spec = json!({"iou_lo": lo, "iou_hi": hi, "inter": e.i});
+    match got {
+        None => {
+            if e.i - e.tol <= 0.0 && absent_allowed {
+                None
+            } else {
+                Some((format!("pair:{}:absent", name), json!({"spec": spec, "impl": "None"})))
+            }
+        }
+        Some(v) => {
+            let v = v as f64;
+            if v.is_nan() {
+                return Some((format!("pair:{}:nan", name), json!({"spec": spec, "impl": "Some(NaN)"})));
+            }
+            let t = if e.i == 0.0 { ZERO_IOU } else { IOU_TOL };
+            if v < lo - t || v > hi + t {
+                let kind = if e.i == 0.0 { "present" } else { "value" };
+                return Some((format!("pair:{}:{}", name, kind), json!({"spec": spec, "impl": v})));
+            }
+            None
+        }
+    }
+}
+
+/// axis-aligned form of a lattice box moved by a pure translation (quarter-turn angles keep it axis-aligned)
+fn aabb(l: &LBox, m: &Motion) -> BoundingBox {
+    let (ew, eh) = if l.k.rem_euclid(2) == 1 { (l.h, l.w) } else { (l.w, l.h) };
+    let (cx, cy) = m.apply(l.x as f64 / 2.0, l.y as f64 / 2.0);
+    let (w, h) = (m.s * ew as f64 / 2.0, m.s * eh as f64 / 2.0);
+    BoundingBox::new((cx - w / 2.0) as f32, (cy - h / 2.0) as f32, w as f32, h as f32)
+}
+
+fn poly_pts(b: &Universal2DBox) -> Vec<(f64, f64)> {
+    let p = b.get_vertices();
+    let mut v: Vec<(f64, f64)> = p.exterior().0.iter().map(|c| (c.x, c.y)).collect();
+    if v.len() >= 2 && v[0] == v[v.len() - 1] {
+        v.pop();
+    }
+    v
+}
+
+fn pair_variant(c: &Value, la: &LBox, lb: &LBox, m: &Motion, none_enc: bool, vname: &str, out: &mut Vec<(String, Value)>) {
+    let a = build(la, m, none_enc);
+    let b = build(lb, m, none_enc);
+    let s2 = m.s * m.s;
+    let i = s2 * jint(c, "inter16") as f64 / 16.0;
+    let dev = a.dev + b.dev;
+    let e = Exp {
+        i,
+        tol: 1.5 * dev * (a.perim + b.perim) + REL_TOL * i + 1e-12 * s2,
+        s_area: a.area + b.area,
+        min_area: a.area.min(b.area),
+    };
+    let ctx = |sig: String, mut d: Value, out: &mut Vec<(String, Value)>| {
+        d["variant"] = json!(vname);
+        d["motion"] = m.json();
+        d["a"] = json!(format!("{:?}", (a.b.xc, a.b.yc, a.b.angle, a.b.aspect, a.b.height)));
+        d["b"] = json!(format!("{:?}", (b.b.xc, b.b.yc, b.b.angle, b.b.aspect, b.b.height)));
+        out.push((sig, d));
+    };
+    let r = catch_unwind(AssertUnwindSafe(|| {
+        let mut res: Vec<(String, Value)> = vec![];
+        // intersection, both argument orders
+        for (o, x, y) in [("(a,b)", &a.b, &b.b), ("(b,a)", &b.b, &a.b)] {
+            if let Some(mut mm) = check_area("intersection", Universal2DBox::intersection(x, y), &e) {
+                mm.1["order"] = json!(o);
+                res.push(mm);
+            }
+        }
+        // IoU of the three metric objects
+        for (x, y, o) in [(&a.b, &b.b, "(a,b)"), (&b.b, &a.b, "(b,a)")] {
+            if let Some(mut mm) = check_iou("iou", Universal2DBox::calculate_metric_object(&Some(x), &Some(y)), &e, true) {
+                mm.1["order"] = json!(o);
+                res.push(mm);
+            }
+        }
+        let va = VisualObservationAttributes::new(1.0, a.b.clone());
+        let vb = VisualObservationAttributes::new(1.0, b.b.clone());
+        if let Some(mm) = check_iou("iou.visual", VisualObservationAttributes::calculate_metric_object(&Some(&va), &Some(&vb)), &e, true) {
+            res.push(mm);
+        }
+        // the clipper itself (area of the clipped polygon), free function and method
+        let (pa, pb) = (a.b.get_vertices(), b.b.get_vertices());
+        let cl: Vec<(f64, f64)> = sutherland_hodgman_clip(&pa, &pb).exterior().0.iter().map(|c| (c.x, c.y)).collect();
+        if let Some(mm) = check_area("clip", ring(&cl), &e) {
+            res.push(mm);
+        }
+        let cl: Vec<(f64, f64)> = b.b.clone().sutherland_hodgman_clip(a.b.clone()).exterior().0.iter().map(|c| (c.x, c.y)).collect();
+        if let Some(mut mm) = check_area("clip", ring(&cl), &e) {
+            mm.1["order"] = json!("b.sutherland_hodgman_clip(a)");
+            res.push(mm);
+        }
+        // pre-filter
+        let tf = Universal2DBox::too_far(&a.b, &b.b);
+        if jint(c, "inter16") > 0 && tf {
+            res.push(("pair:too_far:rejects-overlap".into(), json!({"spec": false, "impl": true})));
+        } else if !jbool(c, "touching") {
+            let d = m.s * (jint(c, "d16") as f64).sqrt() / 4.0;
+            let rs = a.radius + b.radius;
+            if (d - rs).abs() > 4.0 * dev + 1e-5 * rs {
+                if tf != jbool(c, "toofar") {
+                    res.push(("pair:too_far:differs".into(), json!({"spec": jbool(c, "toofar"), "impl": tf, "d": d, "r1+r2": rs})));
+                }
+            } else {
+                res.push(("#toofar_open".into(), Value::Null));
+            }
+        } else {
+            res.push(("#toofar_open".into(), Value::Null));
+        }
+        if tf != Universal2DBox::too_far(&b.b, &a.b) {
+            res.push(("pair:too_far:asymmetric".into(), json!({})));
+        }
+        // axis-aligned closed form (quarter-turn boxes under a pure translation are axis-aligned rectangles)
+        if m.theta == 0.0 {
+            let (ba, bb) = (aabb(la, m), aabb(lb, m));
+            let dv = a.dev + b.dev + 4.0 * f32::EPSILON as f64 * (ba.left.abs().max(ba.top.abs()).max(bb.left.abs()).max(bb.top.abs()) as f64 + a.perim + b.perim);
+            let e2 = Exp { i, tol: 1.5 * dv * (a.perim + b.perim) + REL_TOL * i + 1e-12 * s2, s_area: e.s_area, min_area: e.min_area };
+            if let Some(mm) = check_area("intersection.bbox", BoundingBox::intersection(&ba, &bb), &e2) {
+                res.push(mm);
+            }
+            // BoundingBox reports Some(0) for no overlap: accepted as "IoU < 1e-6"
+            if let Some(mm) = check_iou("iou.bbox", BoundingBox::calculate_metric_object(&Some(&ba), &Some(&bb)), &e2, false) {
+                res.push(mm);
+            }
+            if la.k == 0 && lb.k == 0 && none_enc {
+                // the same pair through the conversion Universal2DBox -> BoundingBox
+                if let (Ok(ca), Ok(cb)) = (BoundingBox::try_from(&a.b), BoundingBox::try_from(&b.b)) {
+                    if let Some(mm) = check_area("intersection.bbox.converted", BoundingBox::intersection(&ca, &cb), &e2) {
+                        res.push(mm);
+                    }
+                } else {
+                    res.push(("pair:try_from:err".into(), json!({})));
+                }
+            }
+        }
+        res
+    }));
+    match r {
+        Ok(res) => {
+            for (s, d) in res {
+                ctx(s, d, out);
+            }
+        }
+        Err(p) => ctx("pair:panic".into(), json!({"panic": panic_text(&p)}), out),
+    }
+}
+
+fn panic_text(p: &Box<dyn std::any::Any + Send>) -> String {
+    if let Some(s) = p.downcast_ref::<&str>() {
+        s.to_string()
+    } else if let Some(s) = p.downcast_ref::<String>() {
+        s.clone()
+    } else {
+        "?".into()
+    }
+}
+
+fn pair_case(idx: usize, c: &Value, seed: u64, rep: &mut Report) {
+    let (la, lb) = (lbox(jget(c, "a")), lbox(jget(c, "b")));
+    let h = fnv(&format!("{}|{}", la.key(), lb.key()), seed);
+    let cls = jstr(c, "cls");
+    rep.count(&format!("pair_{}", cls), 1);
+    if jbool(c, "edge") {
+        rep.count("pair_shared_edge_line", 1);
+    }
+    if cls != "disjoint" && (cls != "partial" || jbool(c, "edge")) {
+        rep.nontrivial += 1;
+    }
+    let mut out: Vec<(String, Value)> = vec![];
+    let mut variants = 0;
+    if la.k == 0 || lb.k == 0 {
+        pair_variant(c, &la, &lb, &IDENTITY, true, "lattice/none", &mut out);
+        variants += 1;
+    }
+    pair_variant(c, &la, &lb, &IDENTITY, false, "lattice/some", &mut out);
+    pair_variant(c, &la, &lb, &motion(h, 0), true, "moved/near", &mut out);
+    pair_variant(c, &la, &lb, &motion(h, 1), false, "moved/far", &mut out);
+    variants += 3;
+    rep.steps += variants;
+    report_once(idx, c, out, rep);
+}
+
+/// one mismatch per signature and case; entries starting with '#' are counters
+fn report_once(idx: usize, c: &Value, out: Vec<(String, Value)>, rep: &mut Report) {
+    let mut seen: Vec<String> = vec![];
+    for (s, d) in out {
+        if let Some(k) = s.strip_prefix('#') {
+            rep.count(k, 1);
+            continue;
+        }
+        if seen.contains(&s) {
+            continue;
+        }
+        seen.push(s.clone());
+        rep.mismatch(&s, idx, c, d);
+    }
+}
+
+// ------------------------------------------------------------------------------------------------ C15: own areas
+fn perms(n: usize, h: u64) -> Vec<Vec<usize>> {
+    if n <= 3 {
+        let mut all = vec![];
+        let mut p: Vec<usize> = (0..n).collect();
+        heap(n, &mut p, &mut all);
+        all.sort();
+        all
+    } else {
+        let id: Vec<usize> = (0..n).collect();
+        let rev: Vec<usize> = (0..n).rev().collect();
+        let rot: Vec<usize> = (0..n).map(|i| (i + 1) % n).collect();
+        let mut sh = id.clone();
+        let mut x = h | 1;
+        for i in (1..n).rev() {
+            x ^= x << 13;
+            x ^= x >> 7;
+            x ^= x << 17;
+            sh.swap(i, (x % (i as u64 + 1)) as usize);
+        }
+        vec![id, rev, rot, sh]
+    }
+}
+
+fn heap(k: usize, p: &mut Vec<usize>, out: &mut Vec<Vec<usize>>) {
+    if k <= 1 {
+        out.push(p.clone());
+        return;
+    }
+    for i in 0..k {
+        heap(k - 1, p, out);
+        if k % 2 == 0 {
+            p.swap(i, k - 1);
+        } else {
+            p.swap(0, k - 1);
+        }
+    }
+}
+
+fn multipolygon_area(mp: &[Vec<Vec<(f64, f64)>>]) -> f64 {
+    mp.iter().map(|rings| ring(&rings[0]) - rings[1..].iter().map(|r| ring(r)).sum::<f64>()).sum()
+}
+
+fn own_case(idx: usize, c: &Value, seed: u64, rep: &mut Report) {
+    let ls: Vec<LBox> = jarr(c, "boxes").iter().map(lbox).collect();
+    let n = ls.len();
+    let own: Vec<i64> = jarr(c, "own").iter().map(ji).collect();
+    let cells: Vec<i64> = jarr(c, "cells").iter().map(ji).collect();
+    let mut keys: Vec<String> = ls.iter().map(|l| l.key()).collect();
+    keys.sort();
+    let key = keys.join(";");
+    let h = fnv(&key, seed);
+    if (0..n).any(|i| own[i] > 0 && own[i] < cells[i]) {
+        rep.nontrivial += 1;
+        rep.count("own_sets_with_partially_covered_box", 1);
+    }
+    if (0..n).any(|i| own[i] == 0) {
+        rep.count("own_sets_with_covered_box", 1);
+    }
+    rep.count(&format!("own_sets_of_{}", n), 1);
+    // exact translation (integers up to 4096: every coordinate stays representable, degeneracies stay exact);
+    // only for sets without angles
+    let tr = Motion { s: 1.0, theta: 0.0, tx: ((h >> 8) % 8192) as f64 - 4096.5, ty: ((h >> 32) % 8193) as f64 - 4096.0 };
+    let variants: [(&str, Motion, bool); 3] = [("lattice/none", IDENTITY, true), ("lattice/some", IDENTITY, false), ("translated", tr, true)];
+    let mut out: Vec<(String, Value)> = vec![];
+    let angled = ls.iter().any(|l| l.k != 0);
+    for p in perms(n, h) {
+        for (vname, m, none_enc) in variants.iter() {
+            if angled && m.tx != 0.0 {
+                continue; // the far translation is applied to sets of boxes without angle only
+            }
+            rep.steps += 1;
+            let built: Vec<Built> = p.iter().map(|&i| build(&ls[i], m, *none_enc)).collect();
+            let dev: f64 = built.iter().map(|b| b.dev).sum();
+            let perim: f64 = built.iter().map(|b| b.perim).sum();
+            let refs: Vec<&Universal2DBox> = built.iter().map(|b| &b.b).collect();
+            let r = catch_unwind(AssertUnwindSafe(|| {
+                let polys = exclusively_owned_areas(&refs);
+                let shares = exclusively_owned_areas_normalized_shares(&refs, &polys);
+                let areas: Vec<f64> = polys
+                    .iter()
+                    .map(|mp| {
+                        let v: Vec<Vec<Vec<(f64, f64)>>> = mp
+                            .0
+                            .iter()
+                            .map(|pg| {
+                                let mut rings = vec![pg.exterior().0.iter().map(|c| (c.x, c.y)).collect::<Vec<_>>()];
+                                for ir in pg.interiors() {
+                                    rings.push(ir.0.iter().map(|c| (c.x, c.y)).collect());
+                                }
+                                rings
+                            })
+                            .collect();
+                        multipolygon_area(&v)
+                    })
+                    .collect();
+                (shares, areas)
+            }));
+            let ctx = json!({"variant": vname, "order": p, "motion": m.json(), "key": key});
+            match r {
+                Err(pn) => {
+                    rep.count("own_panics", 1);
+                    let mut d = ctx.clone();
+                    d["panic"] = json!(panic_text(&pn));
+                    out.push((format!("own:panic:{}", key), d));
+                }
+                Ok((shares, areas)) => {
+                    if shares.len() != n || areas.len() != n {
+                        out.push(("own:length".into(), ctx.clone()));
+                        continue;
+                    }
+                    for (pos, &i) in p.iter().enumerate() {
+                        let box_area = built[pos].area;
+                        let exp_area = own[i] as f64 / 16.0;
+                        let exp_share = own[i] as f64 / cells[i] as f64;
+                        let tol_area = 1.5 * dev * perim + REL_TOL * box_area + 1e-12;
+                        let tol_share = IOU_TOL + (tol_area + LIB_EPS) / box_area;
+                        let sh = shares[pos] as f64;
+                        let mut d = ctx.clone();
+                        d["box"] = json!(i);
+                        if !(sh >= 0.0 && sh <= 1.0) {
+                            d["impl"] = json!(format!("{}", sh));
+                            out.push(("own:share:out-of-range".into(), d));
+                        } else if (sh - exp_share).abs() > tol_share {
+                            d["spec"] = json!(exp_share);
+                            d["impl"] = json!(sh);
+                            out.push(("own:share:value".into(), d));
+                        } else if !((areas[pos] - exp_area).abs() <= tol_area) {
+                            d["spec"] = json!(exp_area);
+                            d["impl"] = json!(format!("{}", areas[pos]));
+                            out.push(("own:area:value".into(), d));
+                        }
+                    }
+                }
+            }
+        }
+    }
+    report_once(idx, c, out, rep);
+}
+
+// ------------------------------------------------------------------------------------------------ C19
+fn close(a: f64, b: f64, scale: f64) -> bool {
+    (a - b).abs() <= REL_TOL * scale.abs().max(a.abs()).max(b.abs()) + 1e-30
+}
+
+fn conv_case(idx: usize, c: &Value, rep: &mut Report) {
+    let r = jget(c, "ltwh");
+    let lb = lbox(jget(c, "box"));
+    let back = lbox(jget(c, "back"));
+    let asp = jarr(c, "aspect");
+    let aspect = ji(&asp[0]) as f64 / ji(&asp[1]) as f64;
+    rep.nontrivial += 1;
+    let mut out: Vec<(String, Value)> = vec![];
+    // magnitudes 1e-2 .. 1e4 through power-of-two scales and exact offsets
+    for (s, off) in [(1.0, 0.0), (1.0 / 32.0, 0.0), (1024.0, 0.0), (1.0, 8192.0), (4.0, -4096.0)] {
+        rep.steps += 1;
+        let q = |name: &str| s * jint(r, name) as f64 / 4.0;
+        let (l, t, w, h) = (q("l") + off, q("t") - off, q("w"), q("h"));
+        let d0 = json!({"scale": s, "offset": off, "ltwh": [l, t, w, h]});
+        let res = catch_unwind(AssertUnwindSafe(|| {
+            let mut res: Vec<(String, Value)> = vec![];
+            let bb = BoundingBox::new_with_confidence(l as f32, t as f32, w as f32, h as f32, 0.75);
+            let forms: [(&str, Universal2DBox); 4] = [
+                ("from", Universal2DBox::from(&bb)),
+                ("from.owned", Universal2DBox::from(bb)),
+                ("as_xyaah", bb.as_xyaah()),
+                ("ltwh", Universal2DBox::ltwh_with_confidence(l as f32, t as f32, w as f32, h as f32, 0.75)),
+            ];
+            let mag = s.max(off.abs());
+            for (n, u) in forms.iter() {
+                let exp = [s * lb.x as f64 / 2.0 + off, s * lb.y as f64 / 2.0 - off, aspect, s * lb.h as f64 / 2.0, 0.75];
+                let got = [u.xc as f64, u.yc as f64, u.aspect as f64, u.height as f64, u.confidence as f64];
+                let names = ["xc", "yc", "aspect", "height", "confidence"];
+                for i in 0..5 {
+                    if !close(got[i], exp[i], if i < 2 { mag } else { 0.0 }) {
+                        res.push((format!("conv:{}:{}", n, names[i]), json!({"spec": exp[i], "impl": got[i]})));
+                    }
+                }
+                if u.angle.is_some() {
+                    res.push((format!("conv:{}:angle", n), json!({"spec": "None", "impl": format!("{:?}", u.angle)})));
+                }
+                // and back
+                let exp = [
+                    s * (2 * back.x - back.w) as f64 / 4.0 + off,
+                    s * (2 * back.y - back.h) as f64 / 4.0 - off,
+                    s * back.w as f64 / 2.0,
+                    s * back.h as f64 / 2.0,
+                    0.75,
+                ];
+                for (bn, b2) in [("try_from", BoundingBox::try_from(u)), ("try_from.owned", BoundingBox::try_from(u.clone()))] {
+                    match b2 {
+                        Ok(b2) => {
+                            let got = [b2.left as f64, b2.top as f64, b2.width as f64, b2.height as f64, b2.confidence as f64];
+                            let names = ["left", "top", "width", "height", "confidence"];
+                            for i in 0..5 {
+                                if !close(got[i], exp[i], if i < 2 { mag } else { 0.0 }) {
+                                    res.push((format!("conv:{}:{}", bn, names[i]), json!({"via": n, "spec": exp[i], "impl": got[i]})));
+                                }
+                            }
+                        }
+                        Err(_) => res.push((format!("conv:{}:err", bn), json!({"via": n}))),
+                    }
+                }
+            }
+            res
+        }));
+        match res {
+            Ok(v) => {
+                for (sig, mut d) in v {
+                    d["input"] = d0.clone();
+                    out.push((sig, d));
+                }
+            }
+            Err(p) => out.push(("conv:panic".into(), json!({"input": d0, "panic": panic_text(&p)}))),
+        }
+    }
+    report_once(idx, c, out, rep);
+}
+
+fn poly_case(idx: usize, c: &Value, seed: u64, rep: &mut Report) {
+    let l = lbox(jget(c, "box"));
+    let h = fnv(&l.key(), seed);
+    if l.k != 0 {
+        rep.nontrivial += 1;
+    }
+    let verts: Vec<(f64, f64)> = jarr(c, "vertices").iter().map(|v| (ji(&v[0]) as f64 / 4.0, ji(&v[1]) as f64 / 4.0)).collect();
+    let cen = jarr(c, "centre");
+    let (ecx, ecy) = (ji(&cen[0]) as f64 / 4.0, ji(&cen[1]) as f64 / 4.0);
+    let mut out: Vec<(String, Value)> = vec![];
+    let variants: [(&str, Motion, bool); 4] =
+        [("lattice/none", IDENTITY, true), ("lattice/some", IDENTITY, false), ("moved/near", motion(h, 0), true), ("moved/far", motion(h, 1), false)];
+    for (vname, m, none_enc) in variants.iter() {
+        if *vname == "lattice/none" && l.k != 0 {
+            continue;
+        }
+        rep.steps += 1;
+        let b = build(&l, m, *none_enc);
+        let s2 = m.s * m.s;
+        let res = catch_unwind(AssertUnwindSafe(|| {
+            let mut res: Vec<(String, Value)> = vec![];
+            let pts = poly_pts(&b.b);
+            let tol = 1.5 * b.dev + 1e-9 * m.s;
+            if pts.len() != 4 {
+                res.push(("poly:vertices:count".into(), json!({"impl": pts.len()})));
+                return res;
+            }
+            // as a set: every expected vertex is matched by a distinct vertex of the polygon
+            let mut used = [false; 4];
+            for v in &verts {
+                let (ex, ey) = m.apply(v.0, v.1);
+                let hit = (0..4).find(|&j| !used[j] && ((pts[j].0 - ex).powi(2) + (pts[j].1 - ey).powi(2)).sqrt() <= tol);
+                match hit {
+                    Some(j) => used[j] = true,
+                    None => {
+                        res.push(("poly:vertices:value".into(), json!({"spec": [ex, ey], "impl": pts, "tol": tol})));
+                        break;
+                    }
+                }
+            }
+            let area = s2 * jint(c, "area16") as f64 / 16.0;
+            let pa = ring(&pts);
+            if !((pa - area).abs() <= 1.5 * b.dev * b.perim + REL_TOL * area) {
+                res.push(("poly:polygon-area".into(), json!({"spec": area, "impl": format!("{}", pa)})));
+            }
+            if !close(b.b.area() as f64, area, 0.0) {
+                res.push(("poly:area".into(), json!({"spec": area, "impl": b.b.area()})));
+            }
+            let (gx, gy) = (pts.iter().map(|p| p.0).sum::<f64>() / 4.0, pts.iter().map(|p| p.1).sum::<f64>() / 4.0);
+            let (ex, ey) = m.apply(ecx, ecy);
+            if !(((gx - ex).powi(2) + (gy - ey).powi(2)).sqrt() <= tol) {
+                res.push(("poly:centre".into(), json!({"spec": [ex, ey], "impl": [gx, gy]})));
+            }
+            let r = m.s * (jint(c, "r16") as f64).sqrt() / 4.0;
+            if !close(b.b.get_radius() as f64, r, 0.0) {
+                res.push(("poly:radius".into(), json!({"spec": r, "impl": b.b.get_radius()})));
+            }
+            for p in &pts {
+                let d = ((p.0 - gx).powi(2) + (p.1 - gy).powi(2)).sqrt();
+                if !((d - r).abs() <= 2.0 * tol + REL_TOL * r) {
+                    res.push(("poly:vertex-radius".into(), json!({"spec": r, "impl": d})));
+                    break;
+                }
+            }
+            res
+        }));
+        let ctx = json!({"variant": vname, "motion": m.json(), "box": format!("{:?}", (b.b.xc, b.b.yc, b.b.angle, b.b.aspect, b.b.height))});
+        match res {
+            Ok(v) => {
+                for (sig, mut d) in v {
+                    d["ctx"] = ctx.clone();
+                    out.push((sig, d));
+                }
+            }
+            Err(p) => out.push(("poly:panic".into(), json!({"ctx": ctx, "panic": panic_text(&p)}))),
+        }
+    }
+    report_once(idx, c, out, rep);
+}
+
+/// required verdict recomputed on the values an f32 really holds: the spec's verdict is checked only when the
+/// representable inputs are still on the same side of EPS (band 0.95 .. 1.05 EPS left open)
+fn verdict_on_f32(d: &[f64]) -> &'static str {
+    if d.iter().all(|x| x.abs() < 0.95 * LIB_EPS) {
+        "equal"
+    } else if d.iter().any(|x| x.abs() > 1.05 * LIB_EPS) {
+        "unequal"
+    } else {
+        "open"
+    }
+}
+
+fn eq_case(idx: usize, c: &Value, rep: &mut Report) {
+    let ty = jstr(c, "ty");
+    let u: Vec<f64> = jarr(c, "u").iter().map(|x| ji(x) as f64 * 1e-6).collect();
+    let v: Vec<f64> = jarr(c, "v").iter().map(|x| ji(x) as f64 * 1e-6).collect();
+    let k = jint(c, "k");
+    let req = jstr(c, "req");
+    let field = jstr(c, "field");
+    let maxd = jarr(c, "u").iter().zip(jarr(c, "v").iter()).map(|(a, b)| (ji(a) - ji(b)).abs()).max().unwrap_or(0);
+    if (9..=11).contains(&maxd) || field.contains('+') {
+        rep.nontrivial += 1;
+        rep.count("eq_epsilon_boundary", 1);
+    }
+    rep.steps += 1;
+    let tyname = if ty == "bbox" { "BoundingBox" } else { "Universal2DBox" };
+    let sigfield = if field.contains('+') { "two-coordinates" } else { field };
+    let res = catch_unwind(AssertUnwindSafe(|| -> (bool, bool, bool, bool, Vec<f64>) {
+        if ty == "bbox" {
+            let mk = |z: &[f64]| BoundingBox::new_with_confidence(z[0] as f32, z[1] as f32, z[2] as f32, z[3] as f32, z[4] as f32);
+            let (a, b) = (mk(&u), mk(&v));
+            let d = vec![
+                a.left as f64 - b.left as f64,
+                a.top as f64 - b.top as f64,
+                a.width as f64 - b.width as f64,
+                a.height as f64 - b.height as f64,
+                a.confidence as f64 - b.confidence as f64,
+            ];
+            (a == b, b == a, a == a, b == b, d)
+        } else {
+            let mk = |z: &[f64]| {
+                let ang = if k == 99 { None } else { Some((k as f64 * PI / 2.0 + z[2]) as f32) };
+                Universal2DBox::new(z[0] as f32, z[1] as f32, ang, z[3] as f32, z[4] as f32)
+            };
+            let (a, b) = (mk(&u), mk(&v));
+            let d = vec![
+                a.xc as f64 - b.xc as f64,
+                a.yc as f64 - b.yc as f64,
+                a.angle.unwrap_or(0.0) as f64 - b.angle.unwrap_or(0.0) as f64,
+                a.aspect as f64 - b.aspect as f64,
+                a.height as f64 - b.height as f64,
+            ];
+            (a == b, b == a, a == a, b == b, d)
+        }
+    }));
+    let mut out: Vec<(String, Value)> = vec![];
+    match res {
+        Err(p) => out.push((format!("eq:{}:panic", tyname), json!({"panic": panic_text(&p)}))),
+        Ok((ab, ba, aa, bb, d)) => {
+            let det = json!({"a==b": ab, "b==a": ba, "required": req, "f32_differences": d, "field": field});
+            if !aa || !bb {
+                out.push((format!("eq:{}.{}:irreflexive", tyname, sigfield), det.clone()));
+            }
+            if ab != ba {
+                out.push((format!("eq:{}.{}:asymmetric", tyname, sigfield), det.clone()));
+            } else if req != "open" {
+                if verdict_on_f32(&d) == req {
+                    if (req == "equal") != ab {
+                        out.push((format!("eq:{}.{}:{}-expected", tyname, sigfield, req), det.clone()));
+                    }
+                } else {
+                    rep.count("eq_verdict_not_representable_in_f32", 1);
+                }
+            } else {
+                rep.count("eq_open_band", 1);
+            }
+        }
+    }
+    report_once(idx, c, out, rep);
+}
+
+fn norm_case(idx: usize, c: &Value, rep: &mut Report) {
+    let (k, n, exp) = (jint(c, "k"), jint(c, "n"), jint(c, "exp"));
+    if k < 0 || k >= n {
+        rep.nontrivial += 1;
+    }
+    rep.steps += 1;
+    let a = (k as f64 * 2.0 * PI / n as f64) as f32;
+    let e = exp as f64 * 2.0 * PI / n as f64;
+    let mut out: Vec<(String, Value)> = vec![];
+    match catch_unwind(|| normalize_angle(a)) {
+        Err(p) => out.push(("norm:panic".into(), json!({"panic": panic_text(&p)}))),
+        Ok(r) => {
+            let r = r as f64;
+            let det = json!({"angle": a, "spec": e, "impl": r});
+            // a normalised angle may equal 2*pi after rounding
+            if !(r >= 0.0 && r <= (2.0 * std::f32::consts::PI) as f64 + 1e-6) {
+                out.push(("norm:range".into(), det.clone()));
+            } else {
+                let d = (r - e).abs() % (2.0 * PI);
+                if d.min(2.0 * PI - d) > IOU_TOL {
+                    out.push(("norm:value".into(), det));
+                }
+            }
+        }
+    }
+    report_once(idx, c, out, rep);
+}
+
+pub fn main(opts: &Opts) {
+    let seed = opts.u64("seed", 1);
+    let mut rep = Report::new();
+    rep.keep = opts.usize("keep", 3);
+    for_each_case(opts, |idx, c| {
+        rep.cases += 1;
+        rep.sample(&c);
+        match jstr(&c, "kind") {
+            "pair" => pair_case(idx, &c, seed, &mut rep),
+            "own" => own_case(idx, &c, seed, &mut rep),
+            "conv" => conv_case(idx, &c, &mut rep),
+            "poly" => poly_case(idx, &c, seed, &mut rep),
+            "eq" => eq_case(idx, &c, &mut rep),
+            "norm" => norm_case(idx, &c, &mut rep),
+            o => {
+                eprintln!("vh geom: unknown case kind {}", o);
+                std::process::exit(2);
+            }
+        }
+    });
+    rep.finish();
 }
